@@ -130,6 +130,7 @@ Proof.
 Qed.
 
 (* ---- the cell writer ---- *)
+Definition item_wfp (h : hitem) : Prop := item_wf h = true.
 Definition item_ok (h : hitem) : Prop := item_wf h = true /\ item_expressible h = true.
 
 Definition item_cmds (h : hitem) : list command :=
@@ -156,15 +157,15 @@ Lemma sgr_wf_bytes p : sgr_wf p = true -> forallb param_byte p = true.
 Proof. unfold sgr_wf. rewrite !andb_true_iff. tauto. Qed.
 
 Lemma run_hist hist :
-  Forall item_ok hist ->
+  Forall item_wfp hist ->
   exists toks, run st_init (render hist) = (st_init, toks) /\ cmds_of toks = flat_map item_cmds hist.
 Proof.
   induction hist as [|h r IH]; intros H.
   - exists []. split; reflexivity.
-  - inversion H as [|? ? [Hwf Hex] Hr]; subst. destruct (IH Hr) as (t2 & H2 & E2).
+  - inversion H as [|? ? Hwf Hr]; subst. destruct (IH Hr) as (t2 & H2 & E2).
     unfold render in *. cbn [map concat flat_map].
-    destruct h as [p|cs]; cbn [item_wf item_expressible render_item item_cmds] in *.
-    + apply negb_true_iff in Hex. destruct (sgr_face_sem p Hwf Hex) as (m & Hm & _).
+    destruct h as [p|cs]; unfold item_wfp in Hwf; cbn [item_wf render_item item_cmds] in *.
+    + destruct (sgr_face_sem_lib p Hwf) as (m & Hm & _).
       exists (TItem (CmdFaceModify m) :: t2). rewrite run_app, (run_sgr p m (sgr_wf_bytes p Hwf) Hm), H2.
       split; [reflexivity|]. rewrite Hm. cbn [cmds_of flat_map cmd_of_tok opt_list app]. f_equal. exact E2.
     + destruct (run_text cs Hwf) as (t1 & H1 & E1). exists (t1 ++ t2).
@@ -183,16 +184,16 @@ Proof.
 Qed.
 
 Lemma fold_sem : forall hist cur cells,
-  Forall item_ok hist -> face_ok cur ->
+  Forall item_wfp hist -> face_ok cur ->
   let '(cur', cells') := fold_left writer_step (flat_map item_cmds hist) (cur, cells) in
-  let '(r', rcells') := fold_left ref_step hist (abs_face cur, map abs_cell cells) in
+  let '(r', rcells') := fold_left ref_step_lib hist (abs_face cur, map abs_cell cells) in
   abs_face cur' = r' /\ map abs_cell cells' = rcells'.
 Proof.
   induction hist as [|h rest IH]; intros cur cells H Hcur.
   - cbn. split; reflexivity.
-  - inversion H as [|? ? [Hwf Hex] Hr]; subst. cbn [flat_map]. rewrite fold_left_app. cbn [fold_left ref_step].
-    destruct h as [p|cs]; cbn [item_wf item_expressible item_cmds] in *.
-    + apply negb_true_iff in Hex. destruct (sgr_face_sem p Hwf Hex) as (m & Hm & Hsem).
+  - inversion H as [|? ? Hwf Hr]; subst. cbn [flat_map]. rewrite fold_left_app. cbn [fold_left ref_step_lib].
+    destruct h as [p|cs]; unfold item_wfp in Hwf; cbn [item_wf item_cmds] in *.
+    + destruct (sgr_face_sem_lib p Hwf) as (m & Hm & Hsem).
       rewrite Hm. cbn [fold_left writer_step].
       rewrite <- Hsem, <- (abs_fm_apply m cur Hcur).
       apply IH; [exact Hr| apply fm_apply_ok, Hcur].
@@ -203,19 +204,41 @@ Proof.
       * rewrite map_app, map_map. reflexivity.
 Qed.
 
-(* ANSI-coloured text through the escape-sequence cell writer follows SGR semantics,
-   for every history and every chunking *)
-Theorem writer_semantics f0 hist chunks :
-  face_ok f0 -> Forall item_ok hist -> concat chunks = render hist ->
+(* The cells carry the faces of the library's recorded SGR machine (the reference machine with
+   7 / 27 / 39 / 49 as no-ops) for EVERY history of well-formed sequences and every chunking *)
+Theorem writer_semantics_lib f0 hist chunks :
+  face_ok f0 -> Forall item_wfp hist -> concat chunks = render hist ->
   exists cells, tty_write_chunks f0 chunks = Some cells
-                /\ map abs_cell cells = ref_cells (abs_face f0) hist.
+                /\ map abs_cell cells = ref_cells_lib (abs_face f0) hist.
 Proof.
   intros Hf Hok Hc. unfold tty_write_chunks. rewrite decode_chunks_run by apply st_init_idle. rewrite Hc.
   destruct (run_hist hist Hok) as (toks & Hr & E). rewrite Hr. cbn [fst snd]. rewrite E.
   pose proof (fold_sem hist f0 [] Hok Hf) as H.
   destruct (fold_left writer_step (flat_map item_cmds hist) (f0, [])) as [cur' cells'].
-  unfold ref_cells. cbn [map] in H. destruct (fold_left ref_step hist (abs_face f0, [])) as [r' rcells'].
+  unfold ref_cells_lib. cbn [map] in H. destruct (fold_left ref_step_lib hist (abs_face f0, [])) as [r' rcells'].
   exists cells'. split; [reflexivity|]. cbn [snd]. apply H.
+Qed.
+
+Lemma ref_fold_lib_eq : forall hist st,
+  Forall item_ok hist -> fold_left ref_step_lib hist st = fold_left ref_step hist st.
+Proof.
+  induction hist as [|h rest IH]; intros st H; [reflexivity|]. inversion H as [|? ? [Hwf Hex] Hr]; subst.
+  cbn [fold_left]. rewrite <- (IH _ Hr). f_equal. destruct st as [r cells].
+  destruct h as [p|cs]; cbn [ref_step ref_step_lib item_expressible] in *; [|reflexivity].
+  apply negb_true_iff in Hex. rewrite (ref_sgr_lib_eq p r Hex). reflexivity.
+Qed.
+
+(* ANSI-coloured text through the escape-sequence cell writer follows SGR semantics, for every
+   history of well-formed, expressible sequences and every chunking *)
+Theorem writer_semantics f0 hist chunks :
+  face_ok f0 -> Forall item_ok hist -> concat chunks = render hist ->
+  exists cells, tty_write_chunks f0 chunks = Some cells
+                /\ map abs_cell cells = ref_cells (abs_face f0) hist.
+Proof.
+  intros Hf Hok Hc.
+  assert (Hwf : Forall item_wfp hist) by (eapply Forall_impl; [|exact Hok]; intros h [H _]; exact H).
+  destruct (writer_semantics_lib f0 hist chunks Hf Hwf Hc) as (cells & H1 & H2). exists cells. split; [exact H1|].
+  rewrite H2. unfold ref_cells_lib, ref_cells. rewrite ref_fold_lib_eq by exact Hok. reflexivity.
 Qed.
 
 Lemma roundtrip_modify : forall (m : face_modify) (chunks : list (list N)),
